@@ -256,6 +256,7 @@ def label(op, x, par, k, ev):
 # Part 2: second-order jets with running error bounds, local and global check
 # =============================================================================
 import json
+import os
 from collections import Counter
 from multiprocessing import Pool
 
@@ -1021,42 +1022,47 @@ def judge_program(ev, out):
                 cov["global-skipped:not-evaluable"] += 1
 
 
-def work(chunk):
+def work(task):
+    """one task = every nsplit-th data event of one shard file, streamed (the parent never holds the event log)"""
+    path, j, nsplit = task
     mp.mp.dps = 60
-    out = {"viol": [], "cov": Counter(), "evals": 0, "worst": {}, "errors": []}
-    for ev in chunk:
-        try:
-            judge_program(ev, out)
-        except Exception as e:  # a defect of the oracle must be visible
-            import traceback
-            out["errors"].append("oracle exception on case %s: %r %s" % (ev.get("case"), e, traceback.format_exc()[-600:]))
+    out = {"viol": [], "cov": Counter(), "evals": 0, "worst": {}, "errors": [], "events": 0}
+    try:
+        fh = open(path)
+    except FileNotFoundError:
+        return out
+    n = -1
+    with fh:
+        for line in fh:
+            if '"ev":"data"' not in line:
+                continue
+            n += 1
+            if n % nsplit != j:
+                continue
+            try:
+                ev = json.loads(line)
+            except Exception:
+                continue  # torn last line of a killed worker
+            if ev.get("ev") != "data" or "stmts" not in ev:
+                continue
+            out["events"] += 1
+            try:
+                judge_program(ev, out)
+            except Exception as e:  # a defect of the oracle must be visible
+                import traceback
+                out["errors"].append("oracle exception on case %s: %r %s" % (ev.get("case"), e, traceback.format_exc()[-600:]))
     return out
 
 
 def judge(files, opts):
-    events = []
-    for f in files:
-        try:
-            with open(f) as fh:
-                for line in fh:
-                    if '"ev":"data"' not in line:
-                        continue
-                    try:
-                        e = json.loads(line)
-                    except Exception:
-                        continue
-                    if e.get("ev") == "data" and "stmts" in e:
-                        events.append(e)
-        except FileNotFoundError:
-            pass
     ncpu = max(1, min(opts.get("ncpu", 4), 16))
-    nchunk = ncpu * 8
-    chunks = [c for c in (events[i::nchunk] for i in range(nchunk)) if c]
-    if len(events) < 20:
-        outs = [work(c) for c in chunks]
+    nsplit = max(1, (4 * ncpu) // max(1, len(files)))
+    tasks = [(f, j, nsplit) for j in range(nsplit) for f in files]
+    if len(files) <= 1 and opts.get("tier") != "thorough" and os.path.exists(files[0]) and os.path.getsize(files[0]) < 1 << 20:
+        outs = [work(t) for t in tasks]
     else:
-        with Pool(ncpu) as pool:
-            outs = pool.map(work, chunks)
+        with Pool(ncpu, maxtasksperchild=8) as pool:
+            outs = pool.map(work, tasks, chunksize=1)
     viols, cov, evals, worst, errors = [], Counter(), 0, {}, []
     for o in outs:
         viols += o["viol"]
